@@ -98,6 +98,25 @@ func (m *Machine) newPoint(x, y *smt.Term) Value {
 	return TupleVal{m.newBig(m.coordToBig(x)), m.newBig(m.coordToBig(y))}
 }
 
+// secpDecompress: the y with the requested parity for which (x,y) is on secp256k1, nil when there is none.
+func secpDecompress(x *big.Int, odd bool) *big.Int {
+	if x.Cmp(secpP) >= 0 {
+		return nil
+	}
+	rhs := new(big.Int).Exp(x, big.NewInt(3), secpP)
+	rhs.Add(rhs, big.NewInt(7)).Mod(rhs, secpP)
+	e := new(big.Int).Add(secpP, big.NewInt(1))
+	e.Rsh(e, 2)
+	y := new(big.Int).Exp(rhs, e, secpP)
+	if new(big.Int).Exp(y, big.NewInt(2), secpP).Cmp(rhs) != 0 {
+		return nil
+	}
+	if (y.Bit(0) == 1) != odd {
+		y.Sub(secpP, y)
+	}
+	return y
+}
+
 func init() {
 	reg := func(name string, f intrinsic) { intrinsics[name] = f }
 	reg(btcecPkg+".S256", func(m *Machine, a []Value) Value { return m.s256() })
@@ -166,6 +185,18 @@ func init() {
 		}
 		x := smt.Concat(bs[1:]...)
 		ybit := smt.Extract(bs[0], 0, 0)
+		if x.IsConst() && ybit.IsConst() {
+			// a concrete point: decompress with the real curve equation y^2 = x^3 + 7 over the secp256k1 field
+			y := secpDecompress(x.BigVal(), ybit.U == 1)
+			if y == nil {
+				return fail("point not on curve")
+			}
+			pk := m.zero(pkT).(*StructVal)
+			pk.F[0] = IfaceVal{T: types.NewPointer(m.P.Pkgs[btcecPkg].Type("KoblitzCurve").Type()), V: m.s256()}
+			pk.F[1] = m.newBig(m.coordToBig(x))
+			pk.F[2] = m.newBig(m.coordToBig(smt.BVConstBig(256, y)))
+			return TupleVal{Ptr{Obj: m.newObj(pk, pkT, "pubkey")}, IfaceVal{}}
+		}
 		valid := smt.Eq(smt.App("ec_decompressible", smt.BV(1), x), smt.BVConst(1, 1))
 		if !m.Branch(valid) {
 			return fail("point not on curve")
